@@ -32,7 +32,8 @@ PROPS = {
     "C01": ("p_c01", "Nsl.Props.C01", ["Nsl.Props.C01Storage", "Nsl.Props.LowerOK", "Nsl.Props.LowerOKStorage"], SIM + STOR + LOWOK + LOWOKS),
     "C02": ("p_c02", "Nsl.Props.C02", [], ["Nsl/Model/Opt.lean", "Nsl/Model/VM.lean", "Nsl/Model/IR.lean", "Nsl/Model/Val.lean", "Nsl/Proofs/VMSteps.lean", "Nsl/Proofs/Opt.lean", "Nsl/Proofs/OptSimBase.lean", "Nsl/Proofs/OptSimStep.lean", "Nsl/Proofs/OptSimKept.lean", "Nsl/Proofs/OptSimRun.lean", "Nsl/Proofs/OptSimPres.lean", "Nsl/Proofs/OptSimPasses.lean", "Nsl/Proofs/OptSimConv.lean", "Nsl/Proofs/StepLemmas.lean", "Nsl/Model/WF.lean", "Nsl/Props/C02.lean"]),
     "C03": ("p_c03", "Nsl.Props.C03", [], SIM + STOR + LOWOK + ["Nsl/Props/C03.lean"]),
-    "C04": ("p_c04", "Nsl.Props.C04", [], ["Nsl/Model/VM.lean", "Nsl/Model/Val.lean", "Nsl/Model/Lower.lean", "Nsl/Proofs/StepLemmas.lean", "Nsl/Props/C04.lean"]),
+    "C04": ("p_c04", "Nsl.Props.C04", ["Nsl.Props.C04Sim"], ["Nsl/Model/VM.lean", "Nsl/Model/Val.lean", "Nsl/Model/Lower.lean", "Nsl/Proofs/StepLemmas.lean", "Nsl/Props/C04.lean", "Nsl/Model/VectorCore.lean",
+                                               "Nsl/Model/Core.lean", "Nsl/Model/CoreSem.lean"] + ["Nsl/Proofs/Vec%s.lean" % x for x in ("Base", "Ops", "Vals", "Shape", "Bin", "Rows", "Expr", "Eval", "Store", "Stmt", "Main")] + ["Nsl/Props/C04Sim.lean"]),
     "C05": ("p_c05", "Nsl.Props.C05", ["Nsl.Props.C05IR"], SIM + STOR + LOWOK + ["Nsl/Props/C05.lean", "Nsl/Model/IRType.lean", "Nsl/Proofs/IRTypeBase.lean", "Nsl/Proofs/IRTypeOps.lean",
                                                "Nsl/Proofs/IRTypeOps2.lean", "Nsl/Proofs/IRTypeInv.lean", "Nsl/Proofs/IRTypeStep1.lean", "Nsl/Proofs/IRTypeStep2.lean", "Nsl/Proofs/IRTypeRun.lean", "Nsl/Props/C05IR.lean"]),
     "C15": ("p_c15", "Nsl.Props.C15", [], SIM + STOR + LOWOK + ["Nsl/Props/C15.lean"]),
